@@ -164,9 +164,11 @@ def compare_molecule(ctx, text, rec, mol, origin, base=0):
         if frozenset((a, b)) not in want_b or want_b[frozenset((a, b))] != 2:
             continue       # cumulene: terminals are not adjacent; left to C02/C12
         (ea, xa), (eb, xb) = v[0]
-        if rec.atoms[ea]['aromatic'] or rec.atoms[eb]['aromatic'] or any(o == 8 and (p in (ea, eb) or q in (ea, eb)) for p, q, o in rec.bonds):
+        deg = {x: len([y for y in rec.order[x] if y is not None]) + (rec.atoms[x]['hcount'] or 0) for x in (ea, eb)}
+        if rec.atoms[ea]['aromatic'] or rec.atoms[eb]['aromatic'] or any(o == 8 and (p in (ea, eb) or q in (ea, eb)) for p, q, o in rec.bonds) \
+                or max(deg.values()) > 3 or any(rec.atoms[x]['element'] not in ('C', 'N', 'Si', 'P', 'S', 'O', 'B', 'Ge', 'As', 'Se') for x in (ea, eb)):
             ctx.count('stereo.double-bond-at-aromatic-or-coordinated-atom-skipped')
-            continue      # '=' written at a lower-case atom / coordinate bond on a double-bond atom: no reader agrees on a meaning
+            continue      # '=' at a lower-case atom, a coordinate bond on a double-bond atom, an end with more than three substituents: no agreed meaning
         sa = [(x, rec.marks[(ea, x)]) for x in rec.order[ea] if x is not None and (ea, x) in rec.marks]
         sb = [(x, rec.marks[(eb, x)]) for x in rec.order[eb] if x is not None and (eb, x) in rec.marks]
         if not sa or not sb:
